@@ -394,7 +394,10 @@ func (l *leader) notifyFlr(includeConfig bool) {
 		commitIndex: l.commitIndex,
 	}
 	if includeConfig {
-		update.config = &l.configs.Latest
+		// a copy: replications read it on their own goroutines while
+		// l.configs.Latest is assigned again by the next change
+		config := l.configs.Latest
+		update.config = &config
 	}
 	for _, repl := range l.repls {
 		select {
